@@ -730,6 +730,28 @@ func c04Walk(r Reader) error {
 	return firstErr
 }
 
+// C04RegIDs lists (up to 16) regular files of a layer by a bounded walk.
+func C04RegIDs(r Reader) (ids []uint32) {
+	type item struct {
+		id    uint32
+		depth int
+	}
+	queue := []item{{r.RootID(), 0}}
+	for n := 0; len(queue) > 0 && n < 200 && len(ids) < 16; n++ {
+		it := queue[0]
+		queue = queue[1:]
+		r.ForeachChild(it.id, func(name string, id uint32, mode os.FileMode) bool {
+			if mode.IsRegular() {
+				ids = append(ids, id)
+			} else if mode.IsDir() && it.depth < 5 {
+				queue = append(queue, item{id, it.depth + 1})
+			}
+			return true
+		})
+	}
+	return ids
+}
+
 // C04Child runs the cases [VERIF_C04_FROM, VERIF_C04_TO) against a store. extra runs further entry points that
 // need packages this one cannot import (fs/reader's VerifiableReader.Cache).
 func C04Child(storeName string, store Store, extra func(rec *C04Recorder, r Reader)) error {
